@@ -66,6 +66,10 @@ func (c18) Gen(r *rand.Rand, tier string, idx int) *core.Plan {
 			p.Ops = append(p.Ops, core.Op{Task: t, Kind: "sign", I: []int64{int64(r.IntN(2)), int64(r.IntN(2)), fault, int64(r.IntN(3)), int64(r.IntN(1000))}})
 		}
 	}
+	if r.IntN(5) == 0 {
+		// one plugin command fails outright (the process crashed): the call fails, later calls are unaffected
+		p.Faults = append(p.Faults, rt.Fault{Task: r.IntN(ntasks), Op: core.Pick(r, "plugin.metadata", "plugin.describe", "plugin.sign", "plugin.envelope"), Nth: r.IntN(3), Kind: "EIO"})
+	}
 	p.Tape = core.Tape(r, 60, 0.4)
 	return p
 }
@@ -289,6 +293,8 @@ func (l c18) Exec(env *core.Env) *core.Result {
 					continue
 				}
 				rt.Yield("op")
+				me := sim.Current()
+				faultsBefore := me.FaultsSeen
 				isBlob, format := op.Int(0) == 1, world.Formats[op.Int(1)%2]
 				fault := "none"
 				if f := op.Int(2); f > 0 {
@@ -345,7 +351,7 @@ func (l c18) Exec(env *core.Env) *core.Result {
 					res.Nontrivial = true
 				}
 				if err != nil {
-					if fault == "none" || fault == "add-annotation" && false {
+					if (fault == "none" || fault == "add-annotation" && false) && me.FaultsSeen == faultsBefore {
 						res.Violate("C18/honest-answer-refused", key, "the plugin answered honestly but signing failed: %v", err)
 					}
 					continue
